@@ -60,7 +60,7 @@ PROPS['C08'] = dict(
     lean=['Mkdb.Props.C08', 'Mkdb.Props.C12'],
     facts=['layout.Tuple.Encode', 'layout.Tuple.Decode', 'const.storage.maxValueSize',
            'const.storage.TypeInt', 'const.storage.TypeVarchar', 'const.storage.TypeBoolean', 'const.storage.TypeBigInt'],
-    runs=[dict(cmd='tuple', proto='tuple')],
+    runs=[dict(cmd='tuple', proto='tuple'), dict(cmd='sql', proto='sql', args=['literals'], corpus='C08')],
     claim='Proof: C08_tuple_roundtrip (for every schema with distinct column names and every assignment of int64 / byte-string / '
           'boolean / NULL values, what Tuple.Encode accepts Tuple.Decode returns bit-for-bit), C08_accept_iff (a row is accepted '
           'exactly when each column is NULL or of the column type, INT within 32 bits) and C08_refuse_kind (which error) are Lean '
@@ -74,4 +74,39 @@ PROPS['C08'] = dict(
          'duplicate assignments and duplicate column names. Non-trivial: non-empty schema and assignment; distinct by text.',
     assumptions=['reflect.Kind of the supplied Go values is int64/string/bool/nil (what parser and csvimport produce)'],
     trusted_base=['model Mkdb/Model/Tuple.lean hand-written from storage/relation.go'],
+)
+
+SQL_PANIC_FACTS = ['panics.sql.*', 'sql.tokens', 'const.sql.*']
+
+PROPS['C09'] = dict(
+    lean=['Mkdb.Props.C09'],
+    facts=SQL_PANIC_FACTS + ['skeleton.engine.Session.ExecQuery'],
+    runs=[dict(cmd='sql', proto='sql', timeout=1200)],
+    search_seeds=1,
+    claim='Proof: C09_no_panic - for every rune sequence (arbitrary letter/digit/upper-case oracles for non-ASCII runes) the model of '
+          'engine.parseSQL (go_scanner.Scan + tokenScanner.Cur + every parser production, with each Go panic site an explicit '
+          '.panic outcome) returns a statement or an error value, never a panic; C09_parse_no_panic the same for every token list; '
+          'C09_unquote_guard: the quote-stripping slice is only taken on a terminated token of length >= 2. Termination: the model is '
+          'total with fuel; that the initial fuel is never exhausted (every loop iteration / recursive production consumes a token) '
+          'is proved in Mkdb/Proofs/Fuel.lean when present in the audit list, otherwise observed (no `.fuel` outcome on any run). '
+          'Tie: the panic-site inventory of sql/*.go and the token table are re-extracted every run; scanner tokens, parse outcome '
+          'class, error kind and AST are compared with the real scanner+parser on all token sequences of length <= 2-3 over the full '
+          'vocabulary, every truncation and mutation of generated statements, unterminated quotes, huge numbers, random bytes incl. '
+          'invalid UTF-8 and >1024-byte inputs, under a watchdog.',
+    note='Trusted: Lean kernel, hand-written scanner/parser model, UTF-8 decoding and Unicode tables (supplied per rune by the '
+         'harness), strconv.Atoi (modelled), Go stack depth on pathologically deep OR chains (not modelled).',
+    rule='corpus of past failures; all token sequences of length 1-2 over the vocabulary (one token per token type plus literal / '
+         'identifier variants) and statement keyword + all length-2 (thorough: 3) sequences; generated statements with two '
+         'renderings each, all word-boundary truncations, random cuts, word mutations; unterminated literals; exhaustive boolean '
+         'shapes up to 4 predicates; random byte soup; long inputs. Non-trivial: outcome ok or panic (text) / not err (tokens); '
+         'distinct by input.',
+    assumptions=['strings.ToLower("databases") comparison only involves ASCII case folding'],
+    trusted_base=['models Mkdb/Model/Scan.lean, Mkdb/Model/Parse.lean hand-written from sql/go_scanner.go, sql/scanner.go, sql/parser.go'],
+)
+PROPS['C10'] = dict(
+    lean=['Mkdb.Props.C10'],
+    facts=['sql.tokens', 'const.sql.*', 'panics.sql.*'],
+    runs=[dict(cmd='sql', proto='sql', timeout=1200)],
+    search_seeds=1,
+    claim='pending', note='pending', rule='see C10 in DESIGN.md',
 )
